@@ -2,6 +2,7 @@
     weakened: this file stops compiling if a statement in Props/C03.v changes. *)
 From Coq Require Import List ZArith NArith Bool.
 From BV Require Import Model.Engine Proofs.Engine Props.C03.
+From BV Require Corr.EngineCase Corr.C03 Proofs.OracleC03.
 Import ListNotations.
 Local Open Scope N_scope.
 
@@ -118,6 +119,16 @@ Check C03_fatal_command_stops : forall cs s c g,
   process cs s (EvCommand c) g =
   (fst (action cs s c),
    mkAudit [OutCommanded (snd (action cs s c))] (action_unrec (snd (action cs s c)))).
+
+Check C03_oracle_sound_partial : forall c : Corr.EngineCase.case,
+  Corr.EngineCase.valid_case c = true -> Proofs.OracleC03.case_in_scope c = true ->
+  Corr.EngineCase.corr_b c = true -> Corr.C03.prop_b c = true.
+Check eq_refl : Proofs.OracleC03.op_in_scope (Corr.EngineCase.OpProcess (EvCommand (CCancelOrders FNone))) = false.
+Check eq_refl : Proofs.OracleC03.op_in_scope (Corr.EngineCase.OpAction (CCancelOrders FNone)) = false.
+Check eq_refl : Proofs.OracleC03.op_in_scope (Corr.EngineCase.OpProcess (EvCommand (CClosePositions FNone))) = true.
+Check eq_refl : Proofs.OracleC03.op_in_scope (Corr.EngineCase.OpProcess (EvTradingState true)) = true.
+Check eq_refl : Proofs.OracleC03.op_in_scope Corr.EngineCase.OpGenerate = true.
+Check eq_refl : Proofs.OracleC03.op_in_scope (Corr.EngineCase.OpSetLink 0 SClosed) = true.
 
 (* the definitions the statements rest on, pinned by evaluation *)
 Check eq_refl : lstat_of [LOpen []; LClosed; LUnhealthy; LMissing] 0 = SOpen.
